@@ -326,11 +326,28 @@ impl<'tcx> Dumper<'tcx> {
     fn dump_crate(&self) -> J {
         let tcx = self.tcx;
         let mut fns = vec![];
+        let mut consts = vec![];
         for ldid in tcx.hir_body_owners() {
             let kind = tcx.def_kind(ldid);
             match kind {
                 DefKind::Fn | DefKind::AssocFn => {}
                 DefKind::Closure => {}
+                DefKind::Const { .. } | DefKind::Static { .. } => {
+                    // named constants: path + initialiser (typed tree), so that `NAME.contains(c)` can be read
+                    let did = ldid.to_def_id();
+                    let body = tcx.hir_body_owned_by(ldid);
+                    let typeck = tcx.typeck(ldid);
+                    let hd = HirDump { d: self, owner: ldid, typeck };
+                    let (file, line) = self.loc(tcx.def_span(ldid));
+                    consts.push(J::obj(vec![
+                        ("path", jstr(self.path_of(did))),
+                        ("id", jstr(self.id_of(did))),
+                        ("file", jstr(file)),
+                        ("line", J::Num(line as i64)),
+                        ("body", hd.expr(body.value)),
+                    ]));
+                    continue;
+                }
                 _ => continue,
             }
             fns.push(self.dump_fn(ldid, kind));
@@ -370,6 +387,7 @@ impl<'tcx> Dumper<'tcx> {
         J::obj(vec![
             ("crate", jstr(self.crate_name.clone())),
             ("fns", J::Arr(fns)),
+            ("consts", J::Arr(consts)),
             ("adts", J::Arr(adts)),
             ("impls", J::Arr(impls)),
             ("traits", J::Arr(traits)),
